@@ -173,6 +173,15 @@ def declaredStruct (σ : Space) : Nat → List Field → Json → Bool
   | f + 1, ps, j =>
     match j with
     | .obj kvs =>
+      if hasFlatten ps then
+        -- with flattened members: a member read by name is declared by that member's type; the members left over are
+        -- declared, as one object, by every flattened member's type (for a flattened map: each by the value type)
+        nodupKeys kvs &&
+        kvs.all (fun kv => match ps.find? (fun p => p.rename != .flatten && p.wire == kv.1) with
+          | some p => declared σ f p.ty kv.2
+          | none => true) &&
+        ps.all (fun p => p.rename != .flatten || declared σ f p.ty (.obj (bufferOf ps kvs)))
+      else
       nodupKeys kvs &&
       kvs.all (fun kv => match ps.find? (fun p => p.wire == kv.1) with
         | some p => declared σ f p.ty kv.2
